@@ -1,5 +1,5 @@
 (* One entry point for the harness: request (list Z) -> reply (list Z). *)
-From JP Require Import Base.Json Extract.Wire Extract.WireAst Model.Slice Spec.Slice Model.Ast Model.Eval Spec.Sem Spec.Compare Model.Tokens Model.Lex Model.PyFloat Model.Parse Model.Api Spec.Rfc9535Grammar Spec.Types Spec.StringLit Model.Position Spec.Position Model.Serialize Spec.NormPath Model.History Model.Descent Model.NdVisit Spec.Nondet Spec.IRegexp Model.MapRe Spec.Printable.
+From JP Require Import Base.Json Extract.Wire Extract.WireAst Model.Slice Spec.Slice Model.Ast Model.Eval Spec.Sem Spec.Compare Model.Tokens Model.Lex Model.PyFloat Model.Parse Model.Api Spec.Rfc9535Grammar Spec.Types Spec.StringLit Model.Position Spec.Position Model.Serialize Spec.NormPath Model.History Model.Descent Model.NdVisit Model.NdEval Spec.Nondet Spec.NondetQ Spec.IRegexp Model.MapRe Spec.Printable.
 
 Definition iota_json (len : Z) : list json := map (fun k => JNum (NInt (Z.of_nat k))) (seq 0 (Z.to_nat len)).
 Definition enc_sel (r : list (Z * json)) : list Z := enc_list (fun p => fst p :: enc_json (snd p)) r.
@@ -208,6 +208,24 @@ Definition op_all_orders (r : list Z) : list Z :=
   match dec_json r with Some (v, _) => enc_list (enc_list (fun n => enc_loc (fst n))) (all_orders ([], v))
   | None => bad_request end.
 
+(* [23; depth; registry; rx table; supply of scripts; query; value] -> find() in nondeterministic mode, the random episodes taking the scripts in turn *)
+Definition op_find_nd (r : list Z) : list Z :=
+  match dec_nat r with Some (depth, r0) =>
+  match dec_registry r0 with Some (rg, r1) =>
+  match dec_list dec_rxrow r1 with Some (t, r2) =>
+  match dec_list (dec_list dec_z) r2 with Some (sup, r3) =>
+  match dec_query r3 with Some (q, r4) =>
+  match dec_json r4 with Some (v, _) => enc_result (enc_list (fun n => enc_loc (fst n))) (m_find_nd (mk_cfg depth rg t) sup q v)
+  | None => bad_request end | None => bad_request end | None => bad_request end | None => bad_request end | None => bad_request end
+  | None => bad_request end.
+(* [120; registry; rx table; query; value] -> every nodelist (as locations) RFC 9535 permits for the query on the value *)
+Definition op_nd_results (r : list Z) : list Z :=
+  match dec_registry r with Some (rg, r1) =>
+  match dec_list dec_rxrow r1 with Some (t, r2) =>
+  match dec_query r2 with Some (q, r3) =>
+  match dec_json r3 with Some (v, _) => enc_list (enc_list (fun n => enc_loc (fst n))) (nd_results rg (rx_lookup t) q v)
+  | None => bad_request end | None => bad_request end | None => bad_request end | None => bad_request end.
+
 (* [15; pattern] -> map_re(pattern) *)
 Definition op_map_re (r : list Z) : list Z :=
   match dec_str r with Some (p, _) => enc_str (m_map_re p) | None => bad_request end.
@@ -233,6 +251,8 @@ Definition dispatch (req : list Z) : list Z :=
   | 6 :: r => op_path r
   | 21 :: r => op_repr r
   | 10 :: r => op_nd_visit r
+  | 23 :: r => op_find_nd r
+  | 120 :: r => op_nd_results r
   | 11 :: r => op_graph r
   | 12 :: r => op_history r
   | 15 :: r => op_map_re r
